@@ -27,6 +27,8 @@ var c11Emails = []c11Email{
 	{"alice@allowed.test", "listed-address", false},
 	{"ALICE@Allowed.Test", "listed-address-case-varied", false},
 	{"xalice@allowed.test", "address-prefix-lookalike", false},
+	{"alice+tag@allowed.test", "address-with-plus-tag", false},
+	{"al.ice@allowed.test", "address-with-extra-dot", false},
 	{"alice@allowed.test.evil.test", "address-suffix-lookalike", false},
 	{"bob@corp.test", "listed-domain", false},
 	{"bob@CORP.Test", "listed-domain-case-varied", false},
@@ -251,7 +253,7 @@ func init() {
 	fw.Register(&fw.Check{
 		ID:    "C11",
 		Level: "exploration",
-		Rule: "full product on a proxy built like cmd/sso-proxy (validators exactly as proxy.New builds them): rule sets = every combination of {absent, listed value, lone *, * with another value} for addresses, domains and groups (63 policies) x 14 emails (exact, case-varied, prefix/suffix look-alikes, look-alike domain, sub-domain, domain as prefix, unlisted, two @, empty local part, non-ASCII local part / domain) x directory {in listed group, in none, error 500, unavailable 503, rate-limited 429, only in groups whose names extend a listed name, only in groups whose names are prefixes of a listed name}; " +
+		Rule: "full product on a proxy built like cmd/sso-proxy (validators exactly as proxy.New builds them): rule sets = every combination of {absent, listed value, lone *, * with another value} for addresses, domains and groups (63 policies) x 16 emails (exact, case-varied, prefix/suffix look-alikes, plus-tagged and dotted variants of a listed address, look-alike domain, sub-domain, domain as prefix, unlisted, two @, empty local part, non-ASCII local part / domain) x directory {in listed group, in none, error 500, unavailable 503, rate-limited 429, only in groups whose names extend a listed name, only in groups whose names are prefixes of a listed name}; " +
 			"each case logs in through the real callback, sends a request while no check is due and one after the validity TTL; oracle = the documented any-of semantics and the same verdict at all three stages (emails whose reading the statement leaves open: consistency only); " +
 			"distinct_nontrivial = distinct (rule set, email class, directory, verdict triple) among cases admitted at login",
 		Assumptions:    []string{"a revalidation whose directory lookup fails refuses regardless of the rules (C04), so that stage is not compared when the directory errors"},
